@@ -70,9 +70,36 @@ def _r8_inflight(ctx):
         ctx.floor("R8", "registrations of a waiter under a query id", n, 1)
 
 
+def _r10_udp_reply_from_the_server_asked(ctx):
+    """R10 a UDP answer is taken only from the server that was asked: the per-attempt socket is connected to the upstream address before
+    anything is received on it (the kernel then drops datagrams from other sources), or the sender's address returned by recv_from is
+    compared. The query id alone is 16 bits; without the source check anyone who can reach the ephemeral port answers for the upstream."""
+    P = ctx.P
+    n = 0
+    for b in P.bodies.values():
+        if not (b.id.startswith("erbium::dns::outquery::OutQuery::send_single_udp") and b.kind == "coroutine" and b.id.count("{closure") == 1):
+            continue
+        cfg = cfg_of(b)
+        T = terms(P, b)
+        conns = [bb for bb, tm in b.calls() if (callee_name(tm) or "").endswith("UdpSocket::connect")]
+        for bb, tm in b.calls():
+            nme = callee_name(tm) or ""
+            last = nme.rsplit("::", 1)[-1]
+            if "UdpSocket" not in nme or last not in ("recv", "recv_from", "recv_buf", "recv_buf_from", "try_recv", "try_recv_from", "poll_recv", "poll_recv_from", "peek_from"):
+                continue
+            n += 1
+            ctx.saw(b)
+            connected = any(cfg.dominates(c, bb) for c in conns)
+            ctx.check(connected, "R10", "udp-reply-taken-only-from-the-server-asked", ctx.where(b, tm["sp"]),
+                      "%s on a socket that was not connected to the upstream address first: a datagram from any source is accepted as the reply" % last)
+    if ctx.config in ("default", "dns"):
+        ctx.floor("R10", "receives on the per-attempt upstream socket", n, 1)
+
+
 def run(ctx):
     P = ctx.P
     _r8_inflight(ctx)
+    _r10_udp_reply_from_the_server_asked(ctx)
     # clauses shared with other properties: TTLs only age (the cache's lifetime and hit rules), what a truncated relay may drop
     ctx.include("C06", rules=("R1", "R2", "R3", "R6"))
     # "the reply belongs to this question": a cached entry answers only the question it was stored for (the key and how it is compared)
